@@ -43,8 +43,26 @@
 (*   C20.zkProvider    zk:// yields a ZooKeeper-backed provider for the    *)
 (*                     given hosts, path and optional endpoint name        *)
 (*   C20.rejectsOther  any other scheme is rejected                        *)
+(*                                                                         *)
+(* End-to-end events (the generated client over the real dispatcher over a *)
+(* recording sink that answers when and in the order the scenario chooses; *)
+(* several calls outstanding at once, made before / after the client's     *)
+(* open completed).  The call machine and its clauses are in ProxyCalls;   *)
+(* here the attribute that was called is resolved to (method, form):       *)
+(*   Client(i, names)            a client for interface i was built        *)
+(*   Call(i, cid, n, in)         attribute n called with arguments `in`    *)
+(*   SinkRecv(seq, rec)          the sink received a method-call message   *)
+(*   Reply(seq, kind, tok)       the sink answered message seq             *)
+(*   Ret(cid, kind)              the _async form returned (a result object *)
+(*                               "pending" / "completed", or anything else)*)
+(*   Result(cid, kind, tok)      the blocking form returned / raised; the  *)
+(*                               _async form's result object yielded       *)
+(*   End(opened)                 scenario over, loop quiescent             *)
+(*   C20.forward / C20.forwardOnce / C20.syncResult / C20.asyncResult: see *)
+(*   ProxyCalls (each call reaches the sink once, unchanged, and gets the  *)
+(*   answer to its own message).                                           *)
 (***************************************************************************)
-EXTENDS Integers, Sequences, SequencesExt, FiniteSets, TLC
+EXTENDS Integers, Sequences, SequencesExt, FiniteSets, TLC, ProxyCalls
 
 \* ---------------------------------------------------------------- text helpers
 US == 95          \* "_"
@@ -135,9 +153,9 @@ UriDomain(u) ==
 
 \* ---------------------------------------------------------------- the machine
 VARIABLE ifaces        \* interface id -> set of its method names (generated clients so far)
-avars == <<ifaces>>
+avars == <<ifaces, cvars>>
 
-AInit == ifaces = <<>>
+AInit == ifaces = <<>> /\ CInit
 
 
 \* e = [i, names, sync, async]
@@ -148,7 +166,8 @@ IfaceCheck(e) ==
   ELSE IF ~({m \o AsyncSuffix : m \in PublicMethods(names)} \subseteq ToSet(e.async)) THEN "C20.exposes"
   ELSE "ok"
 
-IfaceUpd(e) == ifaces' = [j \in DOMAIN ifaces \cup {e.i} |-> IF j = e.i THEN ToSet(e.names) ELSE ifaces[j]]
+IfaceUpd(e) == /\ ifaces' = [j \in DOMAIN ifaces \cup {e.i} |-> IF j = e.i THEN ToSet(e.names) ELSE ifaces[j]]
+               /\ UNCHANGED cvars
 
 \* arguments travel as tokens: index of the object in the case's pool of argument objects
 \* (identity, else equality), -1 for an object that is neither.
@@ -185,5 +204,37 @@ UriCheck(e) ==
     THEN "ok" ELSE "C20.zkProvider"
   ELSE IF e.res.kind = "rejected" THEN "ok" ELSE "C20.rejectsOther"
 
-NoUpd == UNCHANGED ifaces
+NoUpd == UNCHANGED avars
+
+\* ---------------------------------------------------------------- end to end
+\* e = [i, names]: a client was built for interface i (no clause: exposure is judged by Iface / Fwd)
+ClientCheck(e) == IF ~NoCollision(ToSet(e.names)) THEN "harness.asyncCollision" ELSE "ok"
+ClientUpd(e) == IfaceUpd(e)
+
+\* what was handed over, as one value: method name, positional arguments (tokens), keyword
+\* arguments (sorted by key, << [k |-> name, v |-> token] >>)
+Payload(m, args, kw) == [m |-> m, args |-> args, kw |-> kw]
+
+\* e = [i, cid, n, in |-> [args, kw]]
+ECallCheck(e) ==
+  IF e.i \notin DOMAIN ifaces THEN "harness.knownIface"
+  ELSE LET tg == Target(ifaces[e.i], e.n) IN
+  IF ~tg.ok THEN "harness.knownAttribute"
+  ELSE CallCheck(e.cid, tg.form, tg.m \in PublicMethods(ifaces[e.i]), Payload(tg.m, e.in.args, e.in.kw))
+ECallUpd(e) ==
+  LET tg == Target(ifaces[e.i], e.n) IN
+  /\ CallUpd(e.cid, tg.form, tg.m \in PublicMethods(ifaces[e.i]), Payload(tg.m, e.in.args, e.in.kw))
+  /\ UNCHANGED ifaces
+
+\* e = [seq, rec |-> [m, args, kw]]
+ERecvCheck(e) == RecvCheck(e.seq, Payload(e.rec.m, e.rec.args, e.rec.kw))
+ERecvUpd(e) == RecvUpd(e.seq, Payload(e.rec.m, e.rec.args, e.rec.kw)) /\ UNCHANGED ifaces
+EReplyCheck(e) == ReplyCheck(e.seq, e.kind, e.tok)
+EReplyUpd(e) == ReplyUpd(e.seq, e.kind, e.tok) /\ UNCHANGED ifaces
+ERetCheck(e) == RetCheck(e.cid, e.kind)
+ERetUpd(e) == RetUpd(e.cid, e.kind) /\ UNCHANGED ifaces
+EResultCheck(e) == ResultCheck(e.cid, e.kind, e.tok)
+EResultUpd(e) == ResultUpd(e.cid, e.kind, e.tok) /\ UNCHANGED ifaces
+EEndCheck(e) == EndCheck(e.opened)
+EEndUpd(e) == EndUpd(e.opened) /\ UNCHANGED ifaces
 =============================================================================
